@@ -235,3 +235,43 @@ def c_everychunk(ctx, case):
         ctx.close(np.asarray(gv, float)[nonempty], v[nonempty], "cluster variances for chunks %s" % (sizes,), rtol=1e-9, atol=bound)
         ctx.close(np.asarray(m.transform(dX).compute()), want_d, "distances for chunks %s" % (sizes,), rtol=1e-12, atol=0)
         ctx.event("chunkings-tried")
+
+
+def g_rows(draw):
+    return gen.big_rows_case(draw, maxF=6, maxK=4)
+
+
+@REG.obligation("many_rows", g_rows, quick=12, thorough=200, shard_size=4)
+def c_rows(ctx, case):
+    """Thousands of rows in one call (1e3 .. 7e4; in memory and in a few large Dask chunks): distances, labels and
+    the cluster weights / variances agree with the definition."""
+    X, cent = gen.big_rows(case)
+    n, k = X.shape[0], cent.shape[0]
+    m = machine(cent)
+    D = ((X[None, :, :] - cent[:, None, :]) ** 2).sum(axis=2)
+    ctx.note(max(case["chunks"]) > 4096, "n>%d" % (10 ** int(np.log10(n))), "F=%d" % X.shape[1])
+    got = np.asarray(m.transform(X), float)
+    ctx.check(got.shape == (k, n), "transform shape %s" % (got.shape,), "shape")
+    ctx.close(got, D, "squared distances (many rows)", rtol=1e-12, atol=1e-300)
+    lab = np.asarray(m.predict(X))
+    ctx.check(lab.shape == (n,), "predict shape %s" % (lab.shape,), "shape")
+    dmin = D.min(axis=0)
+    bad = np.nonzero(D[lab, np.arange(n)] > dmin * (1 + 1e-12))[0]
+    ctx.check(len(bad) == 0, "%d of %d rows are not labelled with a nearest centroid (first: row %s)" % (len(bad), n, bad[:1]),
+              "label")
+    dX = sut.dask_rows(X, case["chunks"])
+    ctx.close(np.asarray(m.transform(dX).compute(), float), D, "squared distances (many rows, Dask)", rtol=1e-12, atol=1e-300)
+    srt = np.sort(D, axis=0)
+    if ((srt[1] - srt[0]) / np.maximum(srt[1], 1e-300)).min() < 1e-9:
+        ctx.discard("near-tie")
+    truth = D.argmin(axis=0)
+    sc2 = float((X * X).max())
+    for what, data in (("numpy", X), ("dask", dX)):
+        v, w = m.get_variances_and_weights_for_each_cluster(data)
+        v, w = np.asarray(v, float), np.asarray(w, float)
+        for i in range(k):
+            members = X[truth == i]
+            ctx.close(w[i], len(members) / n, "%s weight of cluster %d (many rows)" % (what, i), rtol=1e-12, atol=1e-15)
+            if len(members):
+                ctx.close(v[i], members.var(axis=0), "%s variance of cluster %d (many rows)" % (what, i), rtol=1e-9,
+                          atol=16 * n * EPS * sc2)
